@@ -8,7 +8,7 @@
    limiter and MustRefuse calls of the extension; [life_run] a Start/Shutdown history.
    The limit predicates, checker constructors and Validate are Generated.MemLimiter18 (T1). *)
 From Verif Require Import Common.Base Generated.MemLimiter18 C18.Model C18.Proofs C18.ProofsShare C18.ProofsSys C18.ProofsFine C18.ProofsTotal
-  Generated.C18ApiExt Generated.C18ApiProc C18.Audit C18.Obligations C18.Harness C18.Clauses C18.ClausesSound C18.ClausesSound2.
+  Generated.C18ApiExt Generated.C18ApiProc C18.Audit C18.Obligations C18.Harness C18.Clauses C18.ClausesSound C18.ClausesSound2 C18.ProofsCtx.
 From Coq Require String.
 Local Open Scope Z_scope.
 
@@ -391,6 +391,21 @@ Proof. exact model_passes_config. Qed.
 Theorem model_passes_checker_share : forall calls, prop_ok (CShare calls (snd (factory_run [] calls))) = true.
 Proof. exact model_passes_share. Qed.
 
+(* The contexts given to Start/Shutdown are only valid for the call and the limiter ignores them:
+   for EVERY history of Start(ctx_i) / Shutdown / "ctx_i ends" the lifetime state is that of the
+   Start/Shutdown operations alone — in particular the shared checker keeps running exactly while
+   there are users, whichever start-up contexts were cancelled or expired in between. *)
+Theorem start_context_irrelevant : forall os s, fst (crun s os) = fst (life_run s (erase_ctx os)).
+Proof. exact crun_erase. Qed.
+
+Theorem checker_survives_context_end : forall os,
+  let s := fst (crun life0 os) in
+  checking s = (0 <? refcnt s) /\ refcnt s = refcnt (fst (life_run life0 (erase_ctx os))).
+Proof. exact checker_survives_ctx_l. Qed.
+
+Theorem model_passes_checker_ctx : forall os, prop_ok (CCtxLife os (ctx_obs_run life0 os)) = true.
+Proof. exact model_passes_ctx. Qed.
+
 Print Assumptions refuse_iff_soft.
 Print Assumptions refuse_iff_soft_validated.
 Print Assumptions refuse_is_above_soft.
@@ -447,3 +462,6 @@ Print Assumptions model_passes_checker_sys.
 Print Assumptions model_passes_checker_fine.
 Print Assumptions model_passes_checker_config.
 Print Assumptions model_passes_checker_share.
+Print Assumptions start_context_irrelevant.
+Print Assumptions checker_survives_context_end.
+Print Assumptions model_passes_checker_ctx.
